@@ -1,7 +1,8 @@
 (* C19 semantic read-back: parameters and operations.  The object builders parse_param / parse_operation read the
    dictionaries of the semantic writer's blobs back as rparam_of / rop_of (goal_param, goal_op); reference paths are
    read back as qualified names (nested_names, typed_path).  Generic tools for the sibling files: unq_q, foldM_app,
-   foldM_skip, noise_key_neq, noise_key_part, layout_body. *)
+   foldM_skip, noise_key_neq, noise_key_part, layout_body, remove_char_nochar, txt_simple, vtxt_simple, noise_val_simple
+   (the reader keeps a value unless only commas and blanks are left: item_simple tests the comma-stripped value). *)
 From Coq Require Import String Ascii List Bool Arith Lia.
 From KV Require Import Lib.Str Lib.ODict Model.Vpp Model.VppWriter Model.Uml Model.UmlBlob Model.UmlWriter Model.UmlSem
                        Proofs.UmlBlobDefs Proofs.UmlBlobStruct Proofs.UmlSemDefs Proofs.UmlSemDict Proofs.UmlSemGoals.
@@ -116,7 +117,7 @@ Qed.
 
 Lemma all_tags : forall t : tag,
   In t [TVis; TRet; TTypeMod; TAbstract; TQuery; TScope; TDoc; TChild; TType; TTypeString; TDir; TDefault; TMult; TInit; TSetter; TGetter;
-        TReadOnly; TStereo; TFrom; TTo].
+        TReadOnly; TStereo; TFrom; TTo; TAgg].
 Proof. destruct t; cbn [In]; repeat first [left; reflexivity | right]. Qed.
 
 Lemma layout_parts : forall f l, layout_ok f l = true ->
@@ -148,6 +149,43 @@ Proof.
     match goal with H : negb (String.eqb u "") = true |- _ => apply negb_true_iff in H; apply eqb_false_ne; exact H end.
 Qed.
 
+(* the reader's test "something but commas and blanks is left" on a comma-free stripped text is "non-empty" *)
+Lemma remove_char_nochar : forall c s, no_char c s = true -> remove_char c s = s.
+Proof.
+  intros c s. induction s as [|x r IH]; intro H; [reflexivity|].
+  cbn [no_char] in H. apply andb_true_iff in H. destruct H as [H1 H2]. apply negb_true_iff in H1.
+  cbn [remove_char]. rewrite H1, (IH H2). reflexivity.
+Qed.
+
+Lemma txt_simple : forall s, txt s = true -> s <> "" -> negb (String.eqb (py_strip (remove_char "," s)) "") = true.
+Proof.
+  intros s H Hne. unfold txt in H. split_andb.
+  rewrite remove_char_nochar by assumption.
+  match goal with H : String.eqb (py_strip s) s = true |- _ => apply String.eqb_eq in H; rewrite H end.
+  apply negb_true_iff. destruct (String.eqb s "") eqn:E; [|reflexivity]. apply String.eqb_eq in E. contradiction.
+Qed.
+
+Lemma vtxt_simple : forall s, vtxt s = true -> s <> "" -> negb (String.eqb (py_strip (remove_char "," s)) "") = true.
+Proof.
+  intros s H Hne. unfold vtxt in H. split_andb.
+  match goal with H : (String.eqb s "" || _)%bool = true |- _ => apply orb_true_iff in H; destruct H as [Hx|Hx] end.
+  - apply String.eqb_eq in Hx. contradiction.
+  - assumption.
+Qed.
+
+Lemma noise_val_simple : forall v, noise_val v = true -> negb (String.eqb (py_strip (remove_char "," (unq v))) "") = true.
+Proof.
+  intros v H. unfold noise_val in H. apply orb_true_iff in H. destruct H as [H|H].
+  - split_andb.
+    match goal with H : negb (prefixb dq v) = true |- _ => apply negb_true_iff in H; rewrite (unq_plain v H) end.
+    apply txt_simple; [assumption|].
+    match goal with H : negb (String.eqb v "") = true |- _ => apply negb_true_iff in H; apply eqb_false_ne; exact H end.
+  - remember (substring 1 (String.length v - 2) v) as u eqn:Eu. clear Eu. split_andb.
+    match goal with H : String.eqb v (q u) = true |- _ => apply String.eqb_eq in H; subst v end.
+    rewrite unq_q. apply txt_simple; [assumption|].
+    match goal with H : negb (String.eqb u "") = true |- _ => apply negb_true_iff in H; apply eqb_false_ne; exact H end.
+Qed.
+
 Lemma items_simple : forall ws f l,
   (forall k v, In (SNoise k v) l -> noise_val v = true) ->
   (forall t it, f t = Some it -> item_simple it = true) ->
@@ -156,9 +194,7 @@ Proof.
   intros ws f l. induction l as [|s r IH]; intros Hn Hf; [reflexivity|].
   rewrite items_of_cons, forallb_app. rewrite IH; [|intros k v Hin; apply (Hn k v); right; exact Hin|exact Hf].
   rewrite andb_true_r. destruct s as [k v|t].
-  - cbn [forallb item_simple]. rewrite andb_true_r. apply negb_true_iff.
-    destruct (String.eqb (unq v) "") eqn:E; [|reflexivity].
-    apply String.eqb_eq in E. exfalso. apply (noise_val_unq v); [|exact E]. apply (Hn k v). left. reflexivity.
+  - cbn [forallb item_simple]. rewrite andb_true_r. apply noise_val_simple. apply (Hn k v). left. reflexivity.
   - destruct (f t) as [it|] eqn:E; [|reflexivity]. cbn [forallb]. rewrite (Hf t it E). reflexivity.
 Qed.
 
@@ -377,10 +413,11 @@ Proof.
   cbn [item_entries]. rewrite unq_q. reflexivity.
 Qed.
 
-Lemma text_field_simple : forall ws k v it, text_field ws k v = Some it -> item_simple it = true.
+Lemma text_field_simple : forall ws k v it, vtxt v = true -> text_field ws k v = Some it -> item_simple it = true.
 Proof.
-  intros ws k v it H. unfold text_field in H. destruct (String.eqb v "") eqn:E; [discriminate H|].
-  injection H as H. subst it. cbn [item_simple]. rewrite unq_q, E. reflexivity.
+  intros ws k v it Hv H. unfold text_field in H. destruct (String.eqb v "") eqn:E; [discriminate H|].
+  injection H as H. subst it. cbn [item_simple]. rewrite unq_q. apply vtxt_simple; [exact Hv|].
+  apply eqb_false_ne. exact E.
 Qed.
 
 Lemma flag_field_simple : forall ws k b it, flag_field ws k b = Some it -> item_simple it = true.
@@ -424,11 +461,12 @@ Lemma param_simple : forall D p, param_ok D p = true -> forall t it, param_item 
 Proof.
   intros D p H t it Hi. unfold param_ok in H. split_andb.
   destruct t; cbn [param_item] in Hi; try discriminate Hi;
-    try (eapply text_field_simple; exact Hi).
+    try (eapply text_field_simple; [|exact Hi]; assumption).
   - destruct (sp_basic p); [discriminate Hi|]. eapply ref_field_simple. exact Hi.
   - destruct (sp_basic p) as [s|]; [|discriminate Hi]. injection Hi as Hi. subst it.
     cbn [item_simple]. rewrite unq_q.
-    match goal with H : type_ok s = true |- _ => unfold type_ok in H; split_andb end. assumption.
+    match goal with H : type_ok s = true |- _ => unfold type_ok in H; split_andb end.
+    apply txt_simple; [assumption|]. apply eqb_false_ne. apply negb_true_iff. assumption.
   - destruct (sp_dir p) as [[|]|]; [| |discriminate Hi]; injection Hi as Hi; subst it; reflexivity.
 Qed.
 
@@ -592,10 +630,11 @@ Lemma op_simple : forall D o, op_ok D o = true -> forall t it, op_item o t = Som
 Proof.
   intros D o H t it Hi. unfold op_ok in H. split_andb.
   destruct t; cbn [op_item] in Hi; try discriminate Hi;
-    try (eapply text_field_simple; exact Hi); try (eapply flag_field_simple; exact Hi); try (eapply ref_field_simple; exact Hi).
+    try (eapply text_field_simple; [|exact Hi]; assumption); try (eapply flag_field_simple; exact Hi); try (eapply ref_field_simple; exact Hi).
   - destruct (so_vis o) as [c|]; [|discriminate Hi]. injection Hi as Hi. subst it.
     match goal with H : code_ok (Some c) = true |- _ => cbn [code_ok] in H; split_andb end.
-    cbn [item_simple]. rewrite unq_plain by (apply negb_true_iff; assumption). assumption.
+    cbn [item_simple]. rewrite unq_plain by (apply negb_true_iff; assumption).
+    apply txt_simple; [assumption|]. apply eqb_false_ne. apply negb_true_iff. assumption.
   - destruct (so_static o); [|discriminate Hi]. injection Hi as Hi. subst it. reflexivity.
   - destruct (so_params o); [discriminate Hi|]. injection Hi as Hi. subst it. reflexivity.
 Qed.
@@ -764,5 +803,6 @@ Goal True.
     body_pv (items_of ws f l) = PDict (entries (items_of ws f l) ++ numbered (map node_pv (children_of (items_of ws f l))) 0)%list).
   pose proof (children_of_items : forall ws o, layout_ok (op_item o) (so_layout o) = true ->
     children_of (items_of ws (op_item o) (so_layout o)) = map tree_of_param (so_params o)).
+  pose proof (text_field_simple : forall ws k v it, vtxt v = true -> text_field ws k v = Some it -> item_simple it = true).
   exact I.
 Qed.
